@@ -160,6 +160,9 @@ func runMember(dir string, mb member) (oc outcome) {
 			continue
 		}
 		sig, detail := judge(w, m, a, req, ex, accepted, info, prev, cur, ch)
+		if sig != "" && actClass(a) == "edit" {
+			sig += stepFacet(m, a.Dag, req)
+		}
 		if sig != "" {
 			oc.Sig = sig
 			oc.Detail = fmt.Sprintf("%s: action %d (%s, request id %q) in state %s: %s", mb, i, key, req, stateOf(m, a), detail)
@@ -185,6 +188,21 @@ func runMember(dir string, mb member) (oc outcome) {
 		prev = cur
 	}
 	return
+}
+
+// stepFacet: signature facet of edit verdicts — the addressed run is not the latest one and was recorded with
+// another step list than the latest run of its DAG.
+func stepFacet(m *refModel, dag, run string) string {
+	d := m.D[dag]
+	if d == nil || len(d.Runs) == 0 {
+		return ""
+	}
+	latest := d.Runs[len(d.Runs)-1]
+	mine, ok := d.Steps[run]
+	if !ok || run == latest || strings.Join(mine, "\x00") == strings.Join(d.Steps[latest], "\x00") {
+		return ""
+	}
+	return "/addressed-run-has-other-steps-than-latest-run"
 }
 
 func stateOf(m *refModel, a action) string {
@@ -707,10 +725,8 @@ func main() {
 			continue
 		}
 		depth2 := fl.Thorough() || (!b.live() && !b.Depth1Quick)
-		for _, a1 := range alphabet {
-			if !applicable(b, a1) {
-				continue
-			}
+		alph := alphabetOf(b)
+		for _, a1 := range alph {
 			idx++
 			if fl.Mine(idx) {
 				c.check(member{Base: b.Name, Actions: []string{a1.Key}}, idx%97 == 3)
@@ -718,10 +734,7 @@ func main() {
 			if !depth2 {
 				continue
 			}
-			for _, a2 := range alphabet {
-				if !applicable(b, a2) {
-					continue
-				}
+			for _, a2 := range alph {
 				idx++
 				if fl.Mine(idx) {
 					c.check(member{Base: b.Name, Actions: []string{a1.Key, a2.Key}}, idx%1733 == 11)
@@ -745,6 +758,7 @@ func main() {
 	res.Bounds["recorded_runs_per_dag_le"] = 3
 	res.Bounds["request_id_families"] = []string{"distinct in the first 8 characters", "sharing the first 8 characters", "nested prefixes of 4 / 6 / 36 characters, shortest oldest", "the same, shortest newest"}
 	res.Bounds["alphabet_size"] = len(alphabet)
+	res.Bounds["status_edits_per_base_with_different_step_lists"] = "2 actions x every run x every step name of the union of the runs' step lists (12-24)"
 	res.Bounds["base_states"] = len(bases)
 	res.Rule = "member = (base state of the installation, sequence of <=2 API actions of the alphabet; the 3 actions addressing the middle run only from the bases with three runs of d1); every member is executed on a fresh real installation through the generated operation handlers; states = distinct (base, model state, digest of the dump) reached; non-trivial = at least one action"
 	res.Assume("the executable spawned by start/retry is a recording stub: an accepted start does not lead to a real run")
